@@ -507,6 +507,7 @@ FRAGMENTS = [
     ("methods", frag_methods, None),
     ("constants", frag_constants, None),
 ]
+from .frag_open_positions import FRAGMENT as _F_OPEN_POSITIONS; FRAGMENTS.append(_F_OPEN_POSITIONS)  # noqa: E402,E702
 
 FRAGMENTS.append(("parser", lambda repo: __import__("harness.translate.frag_parser", fromlist=["frag_parser"]).frag_parser(repo), None))
 
